@@ -165,7 +165,7 @@ def run_unit(name, features=None, variant=None, seed=0, canary=True, threads=8):
     open(path, "w").write(text)
     extra = []
     if seed:
-        extra += ["-V", "smt-option=smt.random_seed=%d" % (seed % 1000)]
+        extra += ["--smt-option", "smt.random_seed=%d" % (seed % 1000)]
     res = verus(path, seed, threads, extra)
     failures, others = classify(res, linemap)
     funcs = func_results(res)
